@@ -486,3 +486,25 @@ func returnsOnlyClosures(fn *ssa.Function) bool {
 	}
 	return seen
 }
+
+// globalConstInit: the compile-time constant the package initialiser stores into g (nil if g is
+// initialised otherwise). Only meaningful for globals declared `global nonnil` (assigned once).
+func (p *Prog) globalConstInit(g *ssa.Global) *ssa.Const {
+	initFn := g.Pkg.Func("init")
+	if initFn == nil {
+		return nil
+	}
+	var found *ssa.Const
+	for _, b := range initFn.Blocks {
+		for _, ins := range b.Instrs {
+			if st, ok := ins.(*ssa.Store); ok && st.Addr == g {
+				c, isConst := st.Val.(*ssa.Const)
+				if !isConst || found != nil {
+					return nil
+				}
+				found = c
+			}
+		}
+	}
+	return found
+}
